@@ -50,8 +50,9 @@ type Link struct {
 	cond *sync.Cond
 	A, B *Conn
 	// Hook, if set, is called under the link's lock for every observable
-	// action of an endpoint: ("write", n), ("close", 0), ("deadline", ...).
-	Hook func(c *Conn, what string, n int)
+	// action of an endpoint: ("write", data), ("close", nil),
+	// ("deadline-rw|r|w", nil).  It must not call back into the link.
+	Hook func(c *Conn, what string, data []byte)
 }
 
 // Conn is one endpoint (implements net.Conn).
@@ -96,9 +97,9 @@ func NewLink(auto bool, maxSeg int) *Link {
 	return l
 }
 
-func (c *Conn) hook(what string, n int) {
+func (c *Conn) hook(what string, data []byte) {
 	if c.l.Hook != nil {
-		c.l.Hook(c, what, n)
+		c.l.Hook(c, what, data)
 	}
 }
 
@@ -177,7 +178,7 @@ func (c *Conn) Write(b []byte) (int, error) {
 	}
 	c.Writes = append(c.Writes, len(b))
 	c.BytesWrit += len(b)
-	c.hook("write", len(b))
+	c.hook("write", b)
 	if len(b) == 0 {
 		return 0, nil
 	}
@@ -200,7 +201,7 @@ func (c *Conn) Close() error {
 		return net.ErrClosed
 	}
 	c.closed = true
-	c.hook("close", 0)
+	c.hook("close", nil)
 	if c.auto {
 		c.peer.inEOF = true
 	}
@@ -238,7 +239,7 @@ func (c *Conn) setDeadline(kind string, t time.Time) error {
 	if kind == "rw" || kind == "w" {
 		c.wFired = !t.IsZero() && !t.After(now)
 	}
-	c.hook("deadline-"+kind, 0)
+	c.hook("deadline-"+kind, nil)
 	l.cond.Broadcast()
 	return nil
 }
